@@ -9,7 +9,7 @@ From LCC Require Import Base.Util Model.Proj Model.Sched Model.Graph Model.Fixtu
 (* A test never starts before every test it depends on, directly or transitively, and its suite's setup task have
    finished (and been acknowledged by the main thread). *)
 Theorem C04_order : forall g n sof t e, dep_path g t e ->
-  forall ms1 md ms2 s, 1 <= n -> no_interrupt ms1 ->
+  forall ms1 md ms2 s, 1 <= n ->
   run g n sof (init g n) (ms1 ++ MTake t md :: ms2) = Some s ->
   occurs (is_take e) ms1 /\ occurs (is_finish e) ms1 /\ occurs (is_main e) ms1.
 Proof. exact take_after_transitive_dependencies. Qed.
